@@ -291,6 +291,43 @@ theorem C06_plain_states_injective (fixed : Bool) (A : DFTA Sym PyVal)
     simp only [Option.getD_some, Prod.mk.injEq] at e
     rw [e.1, e.2]
 
+/-- the executable acyclicity test of the driver is sound -/
+theorem acyclic_of_acyclicB (A : DFTA Sym Q) (h : acyclicB A = true) : Acyclic A := by
+  unfold acyclicB at h
+  simp only [List.all_eq_true, decide_eq_true_eq] at h
+  exact ⟨rankOf A (A.rules.length + 1), fun r hr a ha => h r hr a ha⟩
+
+/-- **everything, with decidable hypotheses only** (all evaluated by the driver on every case):
+    a duplicate-free table, an acyclic automaton with a final state, `__d2state__` defined and
+    injective on its states.  Then `UCFG.from_DFTA(dfta, clean=False)` returns a grammar `G`;
+    `program in G` is acceptance; every accepted program has exactly one derivation, the others
+    none; `programs()` returns (large enough recursion budget) and returns the number of accepted
+    programs. -/
+theorem C06_py_total_partial (fixed : Bool) (A : DFTA Sym PyVal) (hd : A.Det)
+    (hdef : d2Defined fixed A = true) (hinj : d2Injective fixed A = true) (hac : acyclicB A = true)
+    (hf : A.finals ≠ []) :
+    ∃ G, fromDFTAPy fixed A = some G ∧
+      (∀ t, contains G t = A.accepts t) ∧
+      (∀ t, (reduceAll G t).length = if A.accepts t = true then 1 else 0) ∧
+      ∃ n fuel0, (∀ fuel, fuel0 ≤ fuel → programs G fuel = some n) ∧
+        ∃ L : List Prog, L.Nodup ∧ (∀ t, t ∈ L ↔ A.accepts t = true) ∧ n = L.length := by
+  have hi := injOn_of_d2Injective fixed A hinj
+  obtain ⟨G, hG⟩ := C06_fromDFTA_terminates (d2 fixed) A hf
+  have hpy : fromDFTAPy fixed A = some G := by unfold fromDFTAPy; rw [if_pos hdef]; exact hG
+  obtain ⟨rank, hrank⟩ := acyclic_of_acyclicB A hac
+  refine ⟨G, hpy, fun t => C06_lang_partial _ A hd hi G hG t,
+    fun t => C06_unambiguous_partial _ A hd hi G hG t, ?_⟩
+  obtain ⟨n, hn⟩ := C06_programs_terminates_partial _ A hi rank hrank G hG _ (Nat.le_refl _)
+  refine ⟨n, levelOf A rank + 1, ?_, C06_count_partial _ A hd hi ⟨rank, hrank⟩ G hG _ n hn⟩
+  intro fuel hfuel
+  obtain ⟨n', hn'⟩ := C06_programs_terminates_partial _ A hi rank hrank G hG fuel hfuel
+  -- both budgets return the number of derivations within the same number of levels
+  have hb : ∀ s ∈ G.starts, boundedU G (levelOf A rank + 1) s = true :=
+    fun s hs => C06_bounded_partial _ A hi rank hrank G hG s hs
+  have e1 := Ops.programs_eq_countU G _ n _ hn hb
+  have e2 := Ops.programs_eq_countU G _ n' _ hn' hb
+  rw [hn', e2, ← e1]
+
 /-! ## `UCFG.from_CFG` (a deterministic grammar) -/
 
 /-- the grammar built from a CFG contains exactly the programs the CFG generates
@@ -374,6 +411,10 @@ example : ∀ q ∈ plain.allStates, ∃ t x, q = PyVal.state t x := by
 example : ∃ G Gc, fromDFTAPy false plain = some G ∧ clean G 100 = some Gc ∧ Gc.rules.length = 4 ∧
     Gc.starts.length = 2 ∧ (∀ k ∈ AList.keys G.rules, k.1 ≠ Ty.unknown) :=
   ⟨_, _, rfl, rfl, by decide, by decide, by decide⟩
+
+example : plain.Det ∧ d2Defined false plain = true ∧ d2Injective false plain = true ∧
+    acyclicB plain = true ∧ plain.finals ≠ [] := by
+  refine ⟨by unfold DFTA.Det; decide, by decide, by decide, by decide, by decide⟩
 
 /-- states of the shape the sharpening pipeline produces after two constraints and a sketch:
     a product `(class, state)` whose first component is a one-element class of `minimise`
